@@ -15,7 +15,7 @@ SIZES = [0, 1, 4096, 65537, 2 * 1024 * 1024]
 BEHAVIOURS = ['stdout', 'd3', 'neither', 'both', 'write1', 'write1_d3', 'del3', 'fail_clean', 'partial_fail_stdout',
               'partial_fail_d3', 'kill_TERM', 'kill_KILL', 'd3_then_fail', 'symlink3_fail', 'symlink3_ok', 'mkdir3_fail']
 PRIORS = ['absent', 'generated_stdout', 'generated_d3', 'generated_removed', 'user', 'absent+staletmp', 'generated_d3+staletmp',
-          'absent+staletmplink', 'generated_stdout+staletmplink', 'generated_symlink']
+          'absent+staletmplink', 'generated_stdout+staletmplink', 'generated_symlink', 'generated_danglink']
 
 
 def gen_bytes(ch, size):
@@ -161,6 +161,9 @@ def case(item):
         if prior.startswith('generated'):
             ch = 'stdout' if prior == 'generated_stdout' else ('symlink3_ok' if prior == 'generated_symlink' else 'd3')
             common.write_file(os.path.join(top, 't.do'), script_for(ch, 3000, False).replace('tr "\\0" "n"', 'tr "\\0" "o"'))
+            if prior == 'generated_danglink':
+                # redo's own output is a symbolic link whose destination does not exist (yet)
+                common.write_file(os.path.join(top, 't.do'), 'ln -s "$1.not-there-yet" "$3"\n')
             r, _ = pj.run(['redo-ifchange', 't'], verif_log=False)
             if r.rc != 0:
                 return dict(verdict='inconclusive', why='could not create the prior state: %s' % r.err[-200:], sample=dict(item=list(item)))
@@ -217,15 +220,17 @@ def case(item):
         for a in scen.crash_anoms(r, pj.logs_text(), 'c04'):
             anoms.append(dict(key='c04-' + a['key'], what=a['what']))
         if (r.rc == 0) != want_ok:
-            anoms.append(dict(key='status:%s:%s%s' % (beh, 'expected-success' if want_ok else 'expected-failure', ':target-is-a-symbolic-link' if prior == 'generated_symlink' and beh.startswith('write1') else ''),
+            anoms.append(dict(key='status:%s:%s%s' % (beh, 'expected-success' if want_ok else 'expected-failure', ':target-is-a-symbolic-link' if prior in ('generated_symlink', 'generated_danglink') and beh.startswith('write1') else ''),
                               what='%s: exit %s; output tail: %s' % (where, r.rc, text[-300:].replace('\n', ' | '))))
         if want_text and not re.search(want_text, text):
-            anoms.append(dict(key='status-text:%s%s' % (beh, ':target-is-a-symbolic-link' if prior == 'generated_symlink' and beh.startswith('write1') else ''), what='%s: expected %r in the output, got: %s' % (where, want_text, text[-300:].replace('\n', ' | '))))
+            anoms.append(dict(key='status-text:%s%s' % (beh, ':target-is-a-symbolic-link' if prior in ('generated_symlink', 'generated_danglink') and beh.startswith('write1') else ''), what='%s: expected %r in the output, got: %s' % (where, want_text, text[-300:].replace('\n', ' | '))))
         if want_bytes != 'unknown' and after != want_bytes:
             anoms.append(dict(key='target-bytes:%s:%s' % (beh, prior.split('_')[0]),
                               what='%s size=%d: target is %r (len %s), expected %r (len %s)' % (
                                   where, size, (after or b'')[:20], None if after is None else len(after),
                                   (want_bytes or b'')[:20] if want_bytes is not None else None, None if want_bytes is None else len(want_bytes))))
+        if want_ok and want_bytes is None and os.path.lexists(tpath):
+            anoms.append(dict(key='target-left-behind:%s:%s' % (beh, prior.split('_')[0]), what='%s: the target should be gone (no output), but a directory entry is still there (%s)' % (where, 'a dangling symbolic link' if os.path.islink(tpath) else 'a file')))
         left = [n for n in os.listdir(top) if n.endswith('.redo.tmp')]
         if left:
             anoms.append(dict(key='tmp-left-behind:%s' % beh, what='%s: %s left in the directory' % (where, left)))
